@@ -118,6 +118,7 @@ static const sim_scanner_vt *scanners[32];
 static int nscanners;
 
 __thread sim_inst *sim_cur;
+FILE *sim_devnull;
 
 static FILE *logf;
 static long seqno;
@@ -1524,6 +1525,7 @@ int main(int argc, char **argv)
 	pthread_mutexattr_settype(&ma, PTHREAD_MUTEX_RECURSIVE);
 	pthread_mutex_init(&big, &ma);
 	logf = stdout;
+	sim_devnull = fopen("/dev/null", "w");
 	signal(SIGPIPE, SIG_IGN);
 #ifdef SIM_ASAN
 	__sanitizer_set_death_callback(on_death);
